@@ -336,8 +336,10 @@ static pid_t pid_of(long m, unsigned long long key, int mode) {
     if (m < 0 || m >= MAXMOD || key == 0 || key >= NPIDKEY) return 0;
     if (mode == 2 && pid_child[m][key] && pid_dead[m][key]) { waitpid(pid_child[m][key], NULL, 0); pid_child[m][key] = 0; pid_dead[m][key] = false; }
     if (mode >= 1 && !pid_child[m][key]) {
-        pid_t c = fork();
-        if (c == 0) { prctl(PR_SET_PDEATHSIG, SIGKILL); for (;;) pause(); }
+        /* the sleeper must outlive the THREAD that forks it (PR_SET_PDEATHSIG follows the forking thread: a child forked by a foreign
+           thread of a script died with that thread and made its pid source fire): it watches the case process instead */
+        pid_t me = getpid(); pid_t c = fork();
+        if (c == 0) { while (getppid() == me) usleep(100000); _exit(0); }
         pid_child[m][key] = c;
     }
     return pid_child[m][key];
